@@ -5,6 +5,7 @@ pub mod c04;
 pub mod c05;
 pub mod c06;
 pub mod c07;
+pub mod c11;
 
 use symcore::Config;
 
@@ -17,6 +18,7 @@ pub fn instances(prop: &str, tier: &str, seed: u64) -> Vec<String> {
         "C05" => c05::instances(tier),
         "C06" => c06::instances(tier, seed),
         "C07" => c07::instances(tier, seed),
+        "C11" => c11::instances(tier),
         _ => vec![],
     }
 }
@@ -32,6 +34,7 @@ pub fn body(prop: &str, inst: &str) {
         "C05" => c05::body(inst),
         "C06" => c06::body(inst),
         "C07" => c07::body(inst),
+        "C11" => c11::body(inst),
         _ => panic!("unknown property {}", prop),
     }
 }
